@@ -1,6 +1,5 @@
-from collections.abc import MutableMapping
+from collections.abc import Mapping, MutableMapping, Sequence
 from urllib.parse import urlsplit
-import itertools
 import json
 import pkgutil
 import re
@@ -161,7 +160,20 @@ def ensure_list(thing):
 def equal(one, two):
     """
     Check if two things are equal, but evade booleans and ints being equal.
+
+    The distinction is made at every nesting level of arrays and objects.
     """
+    if isinstance(one, str) or isinstance(two, str):
+        return one == two
+    if isinstance(one, Sequence) and isinstance(two, Sequence):
+        return len(one) == len(two) and all(
+            equal(i, j) for i, j in zip(one, two)
+        )
+    if isinstance(one, Mapping) and isinstance(two, Mapping):
+        return len(one) == len(two) and all(
+            key in two and equal(value, two[key])
+            for key, value in one.items()
+        )
     return unbool(one) == unbool(two)
 
 
@@ -190,16 +202,20 @@ def uniq(container):
         return len(set(unbool(i) for i in container)) == len(container)
     except TypeError:
         try:
-            sort = sorted(unbool(i) for i in container)
-            sliced = itertools.islice(sort, 1, None)
-            for i, j in zip(sort, sliced):
-                if i == j:
+            # Elements that compare equal are adjacent once sorted, but
+            # may still differ by a nested boolean vs. 0 or 1.
+            run = []
+            for e in sorted(unbool(i) for i in container):
+                if run and run[0] != e:
+                    run = []
+                if any(equal(e, i) for i in run):
                     return False
+                run.append(e)
         except (NotImplementedError, TypeError):
             seen = []
             for e in container:
                 e = unbool(e)
-                if e in seen:
+                if any(equal(e, i) for i in seen):
                     return False
                 seen.append(e)
     return True
